@@ -103,7 +103,8 @@ def main(argv):
                 flush()
 
     args = [sys.argv[0], corpus, "-runs=%d" % runs, "-seed=%d" % (seed if seed else 1), "-max_len=4096", "-len_control=0", "-timeout=300",
-            "-print_final_stats=0", "-verbosity=0"]
+            "-print_final_stats=0", "-verbosity=0",
+            "-artifact_prefix=%s/" % os.path.dirname(os.path.abspath(corpus))]
     atheris.Setup(args, target)
     flush()
     atheris.Fuzz()
